@@ -112,7 +112,7 @@ class Env:
         self.cells = dict(spec.get('cells', {}))
         self.arrays = spec.get('arrays', {})
         self.names = spec.get('names', {})
-        self.over = {k: val(v) for k, v in (overrides or {}).items()}
+        self.over = {(('N', k[5:]) if isinstance(k, str) and k.startswith('NAME:') else k): val(v) for k, v in (overrides or {}).items()}
         self.memo = {}
         self.stack = []
         self.circ = set()
@@ -231,6 +231,8 @@ class Env:
             return Rng(a.book, a.sheet, (c1, r1, c2, r2))
         if k == 'name':
             nk = '%s|%s' % (n[1], n[2])
+            if ('N', nk) in self.over:
+                return self.over[('N', nk)]       # an overridden (computed) name is a constant
             if nk not in self.names:
                 return REF
             return self.ev(self.names[nk], host)
@@ -244,7 +246,7 @@ class Env:
 
     def col_rect(self, book, sheet, col):
         c = colnum(col)
-        rows = [parse_coord(k.split('|')[2])[1] for k in list(self.cells) + list(self.spill) + list(self.over)
+        rows = [parse_coord(k.split('|')[2])[1] for k in list(self.cells) + list(self.spill) + [x for x in self.over if isinstance(x, str)]
                 if k.split('|')[:2] == [book, sheet]]
         return (c, 1, c, max(rows) if rows else 1)
 
@@ -435,7 +437,7 @@ def solve(spec, overrides=None, **kw):
     """-> {cell key: value} for every populated cell (constants, formulas, spill cells)."""
     env = Env(spec, overrides, **kw)
     out = {}
-    keys = list(env.cells) + list(env.spill) + list(env.over)
+    keys = list(env.cells) + list(env.spill) + [k for k in env.over if isinstance(k, str)]
     for k in keys:
         try:
             out[k] = env.cell(k)
